@@ -101,7 +101,7 @@ func roOp(t *sim.Tape, uniq string) fsx.Op {
 	case "Chown", "Lchown":
 		o.P, o.Uid, o.Gid = p(), 1000, 1000
 	case "Chtimes":
-		o.P, o.Size = p(), 1000000
+		o.P, o.Size = p(), []int64{1000000, fsx.ZeroTime, 0, -1}[t.Int(4)]
 	case "Glob":
 		o.P = []string{"/a/*", "/*/*", "/a/d/?", "*", "/b/[gk]"}[t.Int(5)]
 	case "WalkDir":
